@@ -25,7 +25,7 @@ ASSUMPTIONS = [
     "user dictionaries with keys beyond the 20 amino acids are not driven (statement silent)",
 ]
 REQUIRED = {"all": ["cells_checked", "sizes_rejected", "laws_checked", "user_total_accepted", "user_invalid_rejected",
-                    "user_switch_on_same_object"]}
+                    "user_switch_on_same_object", "size_forms_accepted"]}
 SIZES = [2, 3, 4, 5, 6, 8, 10, 11, 12, 15, 18, 20]
 NSEQ = {"quick": 600, "thorough": 4000}
 NUSER = {"quick": 800, "thorough": 6000}
@@ -104,12 +104,35 @@ def judge(case, rep, S):
     elif k == "laws":
         a, b = case["a"], case["b"]
         oa, ob, oab = SP(a), SP(b), SP(a + b)
+        # integer-valued spellings of a predefined size: either rejected or exactly that size's reduction
+        np = S["np"]
+        for size in SIZES:
+            want_seq = "".join(M.alphabet_group(size, c)[0] for c in a)        # group identity, compared through groups below
+            for form in (str(size), " %d " % size, float(size), np.int64(size)):
+                try:
+                    r_seq, r_alpha = red(oa, alphabetSize=form)
+                except Exception:
+                    rep.cnt("size_forms_rejected")
+                    continue
+                rep.cnt("size_forms_accepted")
+                r_int, a_int = red(SP(a), alphabetSize=size)
+                if r_seq != r_int or list(r_alpha) != list(a_int):
+                    rep.viol("size_argument_form", "alphabet size given as %r is accepted but reduces %s to %s / %r; size %d gives %s / %r" % (
+                        form, a, r_seq, r_alpha, size, r_int, a_int), sig={"form": type(form).__name__})
         for size in SIZES:
             rep.cnt("laws_checked")
             rep.distinct((size, a, b))
             ra, al_a = red(oa, alphabetSize=size)
             rb, al_b = red(ob, alphabetSize=size)
             rab, al_ab = red(oab, alphabetSize=size)
+            al_a_copy, al_b_copy, al_ab_copy = list(al_a), list(al_b), list(al_ab)
+            # the caller owns what was returned: emptying it must not disturb any later call
+            try:
+                al_b.clear()
+                al_ab.append("#")
+            except Exception:
+                pass
+            al_b, al_ab = al_b_copy, al_ab_copy
             if len(ra) != len(a):
                 rep.viol("length", "size %d: |reduce(%s)| = %d" % (size, a, len(ra)), sig={"size": size})
             if rab != ra + rb:
